@@ -103,7 +103,25 @@ func startWorld(ctx *common.Ctx, epi int, em *emitter) (*world, error) {
 	if w.viewer, err = s.Login(); err != nil {
 		return nil, err
 	}
+	recoveryIID = 0
+	s0, err := readSnap(w.cap.client)
+	if err != nil {
+		return nil, err
+	}
+	if r := s0.mbByRID(recoveryRID); r != nil {
+		recoveryIID = r.IID
+	} else {
+		return nil, fmt.Errorf("no recovery mailbox in a fresh database")
+	}
 	return w, nil
+}
+
+// the recovery mailbox is a fixed object of the server: it is recognised by its remote id AND by the internal id it
+// had when the server started (an update must not be able to re-label it into an ordinary mailbox)
+var recoveryIID uint64
+
+func isRecovery(mb *dbMb) bool {
+	return mb != nil && (mb.RID == recoveryRID || (recoveryIID != 0 && mb.IID == recoveryIID))
 }
 
 func (w *world) stop() {
@@ -198,7 +216,7 @@ func (w *world) reviveObservers(snap *dbSnap) {
 	// observe up to three mailboxes, the fullest first
 	var cands []*dbMb
 	for _, mb := range snap.Mb {
-		if mb.RID != recoveryRID && !have[mb.Name] {
+		if !isRecovery(mb) && !have[mb.Name] {
 			cands = append(cands, mb)
 		}
 	}
@@ -257,7 +275,7 @@ func (w *world) pushOnce(u imap.Update) (ack string, ackErr string, protoFail st
 func viewOf(s *dbSnap, litOf map[string]string) *wview {
 	v := &wview{Boxes: map[string]*mview{}}
 	for _, mb := range s.Mb {
-		if mb.RID == recoveryRID && len(mb.Rows) == 0 {
+		if isRecovery(mb) && len(mb.Rows) == 0 {
 			continue
 		}
 		if mb.Sub {
@@ -396,7 +414,12 @@ func (w *world) step(u *upd, tag string) (*stepRec, error) {
 			// episode ends here, the failure is what gets reported
 			return nil, fmt.Errorf("%w: %s", errEpisodeOver, d)
 		}
-		return nil, fmt.Errorf("snapshot and wire view disagree before the step: %s", d)
+		// no earlier step was judged a failure, yet the sessions no longer show what the database holds: the updates
+		// acknowledged so far (the history) led there. Reported as a failure of the property with that history as the
+		// input; the episode ends.
+		past := strings.Join(w.hist, " ; ")
+		res.Fail("wire-view-differs-from-database | after: "+past, "what a fresh session shows differs from the database after the acknowledged history: "+d+" | database: "+snapString(before, w.litOf), rec)
+		return nil, fmt.Errorf("%w: %s", errEpisodeOver, d)
 	}
 	w.reviveObservers(before)
 	for _, o := range w.obs {
@@ -458,6 +481,20 @@ func (w *world) step(u *upd, tag string) (*stepRec, error) {
 	rec.Expect = snapString(exp.After, w.litOf)
 	unchanged := diffViews(vBefore, vAfter, false)
 
+	// ---- the protected mailbox: an update aimed at the recovery mailbox (by remote id or by internal id) is refused and
+	// changes nothing, whatever the tag it is delivered under (first delivery, re-delivery, restatement) ----
+	if exp.Why == "protected" {
+		if ack != "err" {
+			fail("protected-mailbox-update-acknowledged", fmt.Sprintf("update aimed at the recovery mailbox acknowledged with %s", ack))
+		}
+		if unchanged != "" {
+			fail("protected-mailbox-changed", "the view changed: "+unchanged)
+		}
+		if a, b := snapString(before, w.litOf), snapString(after, w.litOf); a != b {
+			fail("protected-mailbox-changed", "the database changed: "+a+" -> "+b)
+		}
+		res.Count("protected:" + u.Kind)
+	}
 	// ---- property oracle ----
 	switch {
 	case tag == "dup" || tag == "restate":
